@@ -297,7 +297,14 @@ class Sample(ParameterInferenceResult):
                     # setting populations in the following form:
                     # data = {'populations': {'A': dict(), 'B': dict()}, ...}
                     # this helps to save all kind of populations
-                    pop_num = string.ascii_letters.upper()[:len(self.__dict__[populations])]
+                    # keys 'A', ..., 'Z', 'AA', 'AB', ... (one distinct key per population)
+                    pop_num = []
+                    for n in range(len(self.__dict__[populations])):
+                        key, n = '', n + 1
+                        while n > 0:
+                            n, r = divmod(n - 1, 26)
+                            key = string.ascii_uppercase[r] + key
+                        pop_num.append(key)
                     data[populations] = OrderedDict()
                     for n, elem in enumerate(self.__dict__[populations]):
                         data[populations][pop_num[n]] = OrderedDict()
